@@ -110,6 +110,18 @@ CLAIMS = {
             "Decides for EVERY write site in the limited serializers that a writer failure of kind OutOfMemory leaves as EvalErr::OutOfMemory, that the limiter fails iff limit < len (strict) and decrements by the written count, and that the entry points return only bytes that passed the limiter built with the caller's limit. Does not decide that the unlimited serialization is what is written (C15/C17).",
             "Trusts rustc's MIR and callee resolution; io::Write implementations other than LimitedWriter are out of scope (Cursor<Vec<u8>> never fails).",
             "DESIGN.md 4/C29"),
+    "C24": ("typestate of the two de-duplication maps in intern_tree_limited: key-provenance rule (atom map keyed by content, pair map keyed by the interned children in order), creation-only-in-Vacant-arm region rule, recorded-once rule, visited-set rule; with C03/R03b (Atom equality and hash go through the bytes)",
+            "Decides the structural necessary conditions of maximal de-duplication and of tree preservation: atoms are looked up by content, pairs by their interned children (left, right); a node is created and pushed exactly once and only when its entry is vacant; the created atom has the source bytes, the created pair has the two key values as children; every source node is mapped once and the root is the mapping of the request. Not that the serialization is byte-identical (a value property).",
+            "Trusts rustc's MIR and std's HashMap entry API.",
+            "DESIGN.md 4/C24"),
+    "C26": ("normal-form comparison of every binding: the value each #[pyfunction] returns is reconstructed from MIR across `?`, map_err, borrows and closures (lib/inline.py) and compared with 'core function applied to the caller's parameters'; call inventory + &mut-borrow inventory (nothing else touches core state); flag-region rule for the heap limit; constant comparison of exported flags with the core's; Python ast rules for serde.py and Program.run_with_cost, parameterised by the Rust signatures",
+            "Decides that run_serialized_chia_program is adapt_response(run_program(alloc, ChiaDialect::new(from_bits_truncate(flags)), node_from_bytes(program), node_from_bytes(args), max_cost)) with alloc = new_limited(500000000) iff LIMIT_HEAP, that each ser_*/deser_* binding is exactly its core function on unchanged arguments with errors rendered by to_string(), that adapt_response passes cost/node/message through unchanged, that LazyNode.atom/pair are the allocator's views in the right arms and order, that exported constants equal the core's flags, and that the Python front end routes formats and keyword limits to the bindings that take them. Not: pyo3's argument extraction, nor the tree conversion of clvm_tree_to_lazy_node (C27).",
+            "Trusts rustc's MIR, pyo3's generated wrappers, and the value-preserving wrapper list in rules/c26.py (Deref, as_slice, Rc::new, unbind, ...).",
+            "DESIGN.md 4/C26"),
+    "C30": ("three-way table agreement (opcode_by_name rows x the standard operator-name table x ChiaDialect's dispatch switch, all extracted), dominance rule for the one-byte dispatch, sibling comparison of the unknown-operator paths by parameter roles, flag-flow rule (stored unchanged; ChiaDialect's normalisation shown inert by checking every LIMITS test of the crate in two build configurations), constant rules for keywords and hooks",
+            "Decides that both dialects call the SAME operator function with the SAME arguments for every opcode of the standard table, that everything else takes the same unknown-operator path (same condition, same error payload, same op_unknown arguments), that flags reach operators unchanged (and that ChiaDialect dropping LIMITS under NEW_COST_MODEL cannot change behaviour because all 26 LIMITS tests are conjoined with !NEW_COST_MODEL), that keywords are 1/2/36 and that RuntimeDialect never enables extensions or GC. Equality of outcome follows because run_program is generic over Dialect (same interpreter code).",
+            "Trusts rustc's MIR and the oracle file oracle/standard_ops.json (the published opcode assignment = the 'standard table' of the property).",
+            "DESIGN.md 4/C30"),
     "C13": ("dominance (must-pass-through) of growth sites by cap tests + linear normalisation of the comparison (MIR)",
             "Decides for EVERY growth of a counted resource that a tight cap test of the right kind with the right error variant dominates it (count + increment - cap > 0). All sites, all paths; not a sample.",
             "Trusts rustc's MIR, the linear normaliser, and the inductive invariant count <= cap; does not decide arithmetic overflow of the comparison operands.",
